@@ -1019,7 +1019,7 @@ func execC11Stmt(ctx *core.Ctx, ref core.CaseRef, r *rand.Rand, nLayouts int) {
 				u.viol("layout.result_differs", cause, fmt.Sprintf("EmitSync results differ between the canonical layout and layout %s:\n canonical: %s\n layout:    %s\nlayout text: %q", c.Layouts[i].features(), core.J(outs[0]), core.J(outs[i]), c.Texts[i]), "cause", cause)
 			}
 		}
-		if s.Family == "direct" && !s.Distinct && s.Limit == 0 && !s.LimitZero && outs[0].Err == "" && s.Undoc == "" {
+		if s.Family == "direct" && !s.Distinct && s.Limit == 0 && !s.LimitZero && outs[0].Err == "" && s.Undoc == "" && s.Having == nil {
 			u.refDirect(outs[0])
 		}
 	case "agg":
